@@ -101,8 +101,23 @@ def gen_case(rng, tier):
         if n and rng.random() < 0.35:
             i = rng.randrange(n)
             bad = [i, rng.choice([-2, -1, ncases[i], ncases[i] + 1])]
+        # the model may also have been edited by add_linear_equality_constraint before it is evaluated (the native
+        # variable-level adjacency is merged with the constraint's variables there; round-6 miss C01 r6m2): terms over a
+        # subset of the variables, several cases per variable, possibly the same (variable, case) twice
+        eqc = []
+        if n >= 2 and rng.random() < 0.4:
+            for _ in range(rng.randint(1, 2)):
+                vs = rng.sample(range(n), rng.randint(1, min(3, n)))
+                terms = []
+                for i in vs:
+                    for ci in rng.sample(range(ncases[i]), rng.randint(1, min(2, ncases[i]))):
+                        terms.append([i, ci, str(rng.choice([1, -1, 2, 3, Fraction(1, 2)]))])
+                if rng.random() < 0.2:
+                    terms.append(list(rng.choice(terms)))
+                rng.shuffle(terms)
+                eqc.append([terms, str(rng.choice([1, 2, Fraction(1, 2)])), str(rng.choice([0, 1, -1, -2]))])
         return {"kind": kind, "labels": [enc_label(l) for l in labels], "ncases": ncases, "lin": lin, "quad": quad,
-                "off": str(rng.dyadic()), "sample": sample, "bad": bad,
+                "off": str(rng.dyadic()), "sample": sample, "bad": bad, "eqc": eqc,
                 "form": rng.choice(['dict', 'array', 'sampleset']), "omit": n > 0 and bad is None and rng.random() < 0.15}
     # quadratic models
     if kind in ('bqm64', 'bqm32', 'bqmobj', 'view'):
@@ -131,7 +146,9 @@ def gen_case(rng, tier):
     allvars = desc["vars"] + extra
     range_labels = rng.random() < 0.25
     if range_labels:
-        desc, extra = relabel_range(desc, extra)
+        # half of the time the labels 0..n-1 are NOT in index order (the model was built as 2, 0, 1 ...): an unlabelled
+        # sample still means 'column j is the variable LABELLED j' (round-6 C01 r6m1 was caught by a source pin only)
+        desc, extra = relabel_range(desc, extra, rng if rng.random() < 0.5 else None)
         allvars = desc["vars"] + extra
     rows = []
     for _ in range(rng.randint(1, 3)):
@@ -193,11 +210,14 @@ def gen_case(rng, tier):
     return c
 
 
-def relabel_range(desc, extra):
-    """rename the variables to 0..n-1 in the order desc vars, then extra vars"""
+def relabel_range(desc, extra, rng=None):
+    """rename the variables to 0..n-1 in the order desc vars, then extra vars (or, with rng, to a random permutation of 0..n-1)"""
     import json
     key = lambda l: json.dumps(l, sort_keys=True)
-    m = {key(v[0]): i for i, v in enumerate(desc["vars"] + extra)}
+    tgt = list(range(len(desc["vars"] + extra)))
+    if rng is not None:
+        rng.shuffle(tgt)
+    m = {key(v[0]): tgt[i] for i, v in enumerate(desc["vars"] + extra)}
     r = lambda l: m[key(l)]
     d = dict(desc)
     d["vars"] = [[r(v[0])] + list(v[1:]) for v in desc["vars"]]
@@ -212,7 +232,9 @@ def encode_samples(form, labels, rows, perms, drop=None):
     if form == 'dict':
         return {labels[i]: rows[0][i] for i in perms[0] if i in use}, 1
     if form == 'unlabelled':
-        # no labels at all: column j is the variable labelled j (valid for models labelled range(n))
+        # no labels at all: column j is the variable labelled j (valid for models labelled range(n), in any order)
+        inv = sorted(range(len(labels)), key=lambda i: labels[i])
+        rows = [[r[i] for i in inv] for r in rows]
         if len(rows) == 1 and len(labels) % 2:
             return list(rows[0]), 1                                  # a single flat row
         if len(rows) and len(labels) and len(labels) % 3 == 0:
@@ -379,6 +401,8 @@ def run_case(c):
         for i, ci, j, cj, b in c["quad"]:
             d.set_quadratic_case(labels[i], ci, labels[j], cj, float(F(b)))
         d.offset = float(F(c["off"]))
+        for terms, lam, const in c.get("eqc") or []:
+            d.add_linear_equality_constraint([(labels[i], ci, float(F(b))) for i, ci, b in terms], float(F(lam)), float(F(const)))
         stride = 8
         lin = []
         for i, l in enumerate(labels):
